@@ -192,33 +192,33 @@ func (s *Sym) BoolConst() (bool, bool) {
 
 // Event: a call executed on the path.
 type Event struct {
-	Instr  ssa.CallInstruction
-	In     *ssa.Function
-	Callee *ssa.Function // static callee, nil for dynamic calls
-	FnSym  *Sym          // callee value for dynamic calls
-	Args   []*Sym        // including receiver for method calls
-	Res    *Sym
-	Store  bool // a store: Args[0]=address, Args[1]=value
-	MapUpd *ssa.MapUpdate // m[k] = v into a map not made on this path: Args = map, key, value
-	StoreI *ssa.Store
-	Deref  []*Sym // for pointer arguments to tracked locals: the value pointed to at the time of the call
-	Inlined bool  // the callee was interpreted in place (the event records the call and its arguments only)
-	Resolved bool // Callee was resolved from a function value (table entry, closure, method value), not a static call
-	TailLoop bool // not a call instruction: a loop that carries only the function's parameters going round again (Instr is a representative recursive call)
+	Instr    ssa.CallInstruction
+	In       *ssa.Function
+	Callee   *ssa.Function // static callee, nil for dynamic calls
+	FnSym    *Sym          // callee value for dynamic calls
+	Args     []*Sym        // including receiver for method calls
+	Res      *Sym
+	Store    bool           // a store: Args[0]=address, Args[1]=value
+	MapUpd   *ssa.MapUpdate // m[k] = v into a map not made on this path: Args = map, key, value
+	StoreI   *ssa.Store
+	Deref    []*Sym // for pointer arguments to tracked locals: the value pointed to at the time of the call
+	Inlined  bool   // the callee was interpreted in place (the event records the call and its arguments only)
+	Resolved bool   // Callee was resolved from a function value (table entry, closure, method value), not a static call
+	TailLoop bool   // not a call instruction: a loop that carries only the function's parameters going round again (Instr is a representative recursive call)
 }
 
 type pstate struct {
-	env    map[ssa.Value]*Sym
-	cells  map[*ssa.Alloc]*Sym
-	facts  map[string]bool          // key of a boolean sym -> truth
-	dyn    map[string]types.Type    // key -> known dynamic type (from comma-ok assertions)
-	notdyn map[string][]types.Type  // key -> types known not to be the dynamic type
-	eqc    map[string]string        // key -> key of the constant it equals
-	neqc   map[string]map[string]bool
-	events []Event
-	visits map[*ssa.BasicBlock]int
-	iters  map[ssa.Value]int
-	trail  []string // branch decisions, for diagnostics
+	env     map[ssa.Value]*Sym
+	cells   map[*ssa.Alloc]*Sym
+	facts   map[string]bool         // key of a boolean sym -> truth
+	dyn     map[string]types.Type   // key -> known dynamic type (from comma-ok assertions)
+	notdyn  map[string][]types.Type // key -> types known not to be the dynamic type
+	eqc     map[string]string       // key -> key of the constant it equals
+	neqc    map[string]map[string]bool
+	events  []Event
+	visits  map[*ssa.BasicBlock]int
+	iters   map[ssa.Value]int
+	trail   []string // branch decisions, for diagnostics
 	escaped map[*ssa.Alloc]bool
 	symeq   map[string][]symRel // key -> syms it is known (not) equal to
 	havoced map[*ssa.BasicBlock]bool
@@ -312,12 +312,12 @@ type PathSim struct {
 	// QuietDefer: deferred calls that are known to have no effect unless the function panics; they are skipped (their
 	// arguments do not escape). The caller must have established that property by a rule of its own.
 	QuietDefer func(*ssa.Defer) bool
-	prog      *Program
-	maxVisits int
-	maxPaths  int
-	paths     int
-	Truncated int
-	out       []*Summary
+	prog       *Program
+	maxVisits  int
+	maxPaths   int
+	paths      int
+	Truncated  int
+	out        []*Summary
 	// Model, if set, may supply the symbolic result of a call (nil = default).
 	Model func(ev *Event) *Sym
 	// Inline, if set, selects static callees that are interpreted in place
